@@ -52,6 +52,8 @@ pub open spec fn selected(root: PV, pats: Seq<Seq<char>>, e: DirEntry) -> bool {
     &&& !has_skip_component(below_root(root, entry_path(e)))
     &&& !excluded(root, pats, entry_path(e))
     &&& match file_name_v(entry_path(e)) { Some(n) => is_pytest_file_name(n), None => false }
+    // only regular files (or links to them) are collected (after fix of F-13b)
+    &&& fs_is_file(entry_path(e))
 }
 pub open spec fn sel_item_fn(root: PV, pats: Seq<Seq<char>>) -> spec_fn(WalkItem) -> bool {
     |it: WalkItem| match it { Ok(e) => selected(root, pats, e), Err(_) => false }
